@@ -16,6 +16,7 @@ func init() {
 }
 
 func runC08(c *Ctx) {
+	defer checkContextPropagated(c, "C08.R9")
 	defer checkFactoriesWireCollaborators(c, "C08.R8")
 	defer checkFactoriesUseGivenStrategy(c, "C08.R7")
 	c08R1(c)
